@@ -6,6 +6,9 @@ ids = sys.argv[1:] or sorted(os.path.basename(d) for d in glob.glob(V + "/seeded
 if subprocess.run(["git", "-C", "/repo", "status", "--porcelain"], capture_output=True, text=True).stdout.strip():
     sys.exit("/repo not clean")
 rows = {}
+import tempfile, shutil
+evkeep = tempfile.mkdtemp()
+shutil.copytree(V + "/evidence", evkeep + "/e")   # evidence of the unchanged tree is restored afterwards
 for sid in ids:
     prop = sid.split("-")[0]
     patch = "%s/seeded/%s/patch.diff" % (V, sid)
@@ -23,4 +26,9 @@ for sid in ids:
     finally:
         subprocess.run(["git", "-C", "/repo", "checkout", "--", "."])
         subprocess.run(["git", "-C", "/repo", "clean", "-fdq", "jaxtyping"])
-json.dump(rows, open(V + "/seeded/MATRIX.json", "w"), indent=1)
+shutil.copytree(evkeep + "/e", V + "/evidence", dirs_exist_ok=True); shutil.rmtree(evkeep)
+old = {}
+if sys.argv[1:] and os.path.exists(V + "/seeded/MATRIX.json"):
+    old = json.load(open(V + "/seeded/MATRIX.json"))
+old.update(rows)
+json.dump(old, open(V + "/seeded/MATRIX.json", "w"), indent=1, sort_keys=True)
